@@ -234,6 +234,14 @@ class C05:
             data = b"".join(enc(c) for c in cmds) + r.choice(bads)
             segs = r.choice(segmentations(r, data, 3))
             self.run_pipeline(cmds, segs, "protocol-error")
+        # nesting beyond the limit through every aggregate type and position: a protocol violation like any other — the commands before
+        # it are answered, then ONE error reply, then the connection is closed (and the process is still there)
+        for opener in (b"*1\r\n", b"~1\r\n", b">1\r\n", b"%1\r\n+k\r\n", b"%1\r\n", b"|1\r\n+k\r\n", b"*2\r\n:1\r\n"):
+            for depth in (200, 60000):
+                self.fresh()
+                cmds = [[b"ECHO", b"before"]]
+                data = enc(cmds[0]) + opener * depth + b":1\r\n"
+                self.run_pipeline(cmds, [data], "protocol-error-nesting")
         # frames that are not command arrays but are valid RESP: each gets one error reply
         for fr in [b"+OK\r\n", b":5\r\n", b"$3\r\nabc\r\n", b"*0\r\n", b"*-1\r\n", b"$-1\r\n", b"*1\r\n:5\r\n", b"*2\r\n$4\r\nECHO\r\n:5\r\n", b"*1\r\n*1\r\n$4\r\nPING\r\n", b"_\r\n", b"#t\r\n", b",1.5\r\n"]:
             self.fresh()
@@ -250,6 +258,14 @@ class C05:
             ([[b"SET", b"k", b"v"], [b"GET", b"k"], [b"SUBSCRIBE", b"a", b"b"], [b"UNSUBSCRIBE"], [b"PING"]], ["OK", "bulk", "subscribe", "subscribe", "unsubscribe", "unsubscribe", "PONG"]),
             ([[b"ECHO", b"1"], [b"PSUBSCRIBE", b"n*"], [b"ECHO", b"2"], [b"PUNSUBSCRIBE"], [b"ECHO", b"3"]], ["bulk", "psubscribe", "bulk", "punsubscribe", "bulk"]),
         ]
+        # one confirmation per NAME, whatever mixture of held / not held / repeated names the list is, for all four commands
+        for sub, unsub in ((b"SUBSCRIBE", b"UNSUBSCRIBE"), (b"PSUBSCRIBE", b"PUNSUBSCRIBE")):
+            ks, ku = sub.decode().lower(), unsub.decode().lower()
+            for held, asked in (([b"a*"], [b"a*", b"b*"]), ([b"a*"], [b"b*", b"a*"]), ([b"a*", b"c*"], [b"b*", b"a*", b"d*", b"c*"]), ([b"a*"], [b"a*", b"a*"]),
+                                ([b"a*", b"b*"], [b"a*"]), ([], [b"x", b"x", b"y"]), ([b"a*", b"a*"], [b"a*"])):
+                cmds = ([[sub] + held] if held else []) + [[b"ECHO", b"mid"], [unsub] + asked, [b"ECHO", b"end"], [sub, b"z1", b"z2", b"z1"], [b"PING"]]
+                want = [ks] * len(held) + ["bulk"] + [ku] * len(asked) + ["bulk"] + [ks] * 3 + ["PONG"]
+                scen.append((cmds, want))
         def kind(rp):
             if rp[0] == "a" and rp[1] and rp[1][0][0] == "b":
                 return rp[1][0][1].decode("latin-1")
